@@ -332,4 +332,55 @@ theorem preimage_keys_transparent (ext : Nat → Nat) (hS : SiftContract ext) (m
     ← preimage_names_eq m rfl hD.order trans target fa _ _ hpre.keys hpre.decl hpre.qdecl]
   exact he
 
+/-- the literal preconditions of `preimage` by level give `PreimagePreL` for the names at the
+levels -/
+theorem preimagePreL_of_levels (m : Mgr) (hO : OrderOK m.tbl) (rn : List (Key × Key))
+    (qvars : List Key) (q : List Nat) (hq : mapToLevelE m.tbl qvars = .ok q)
+    (hov : renameOverlap (resolveRename m.tbl rn) = false)
+    (hnl : renameNonLevel (resolveRename m.tbl rn) = false)
+    (hlv : ∀ p, p ∈ intPairs (resolveRename m.tbl rn) →
+      0 ≤ p.1 ∧ p.1 < (m.nvars : Int) ∧ 0 ≤ p.2 ∧ p.2 < (m.nvars : Int)) :
+    PreimagePreL (namePairs m.tbl (intPairs (resolveRename m.tbl rn))) (q.map m.tbl.nameOf)
+      m.tbl := by
+  have hnv : m.nvars = m.tbl.nvars := rfl
+  obtain ⟨hk, hd, hx⟩ := namePairs_facts hO rn hnl hlv
+  have hqlt := mapToLevelE_lt hO qvars q hq
+  have hov' : ∀ p p', p ∈ intPairs (resolveRename m.tbl rn) →
+      p' ∈ intPairs (resolveRename m.tbl rn) → p.2 ≠ p'.1 := by
+    have hrn := eq_map_of_nonLevel _ hnl
+    rw [hrn] at hov
+    exact (renameOverlap_lvls _).mp hov
+  refine ⟨hk, hd, ?_, ?_⟩
+  · intro s hs
+    obtain ⟨j, hj, rfl⟩ := List.mem_map.mp hs
+    exact nameOf_declared hO (hqlt j hj)
+  · intro x x' hx1 hx2 he
+    obtain ⟨p, hp, rfl, _, _⟩ := hx x hx1
+    obtain ⟨p', hp', rfl, _, _⟩ := hx x' hx2
+    simp only at he
+    have h1 := hlv p hp
+    have h2 := hlv p' hp'
+    have := nameOf_inj hO (by omega) (by omega) he
+    exact hov' p p' hp hp' (by omega)
+
+/-- C09 for `preimage` under its literal preconditions, keys as names or levels resolving to
+declared levels at the time of the call: any order, any renaming, any target -/
+theorem preimage_keys_literal_transparent (ext : Nat → Nat) (hS : SiftContract ext) (m : Mgr)
+    (hD : DynInv ext m) (trans target : Int) (ht : HeldX ext trans) (hs : HeldX ext target)
+    (fa : Bool) (rn : List (Key × Key)) (qvars : List Key) (q : List Nat)
+    (hq : mapToLevelE m.tbl qvars = .ok q)
+    (hov : renameOverlap (resolveRename m.tbl rn) = false)
+    (hnl : renameNonLevel (resolveRename m.tbl rn) = false)
+    (hlv : ∀ p, p ∈ intPairs (resolveRename m.tbl rn) →
+      0 ≤ p.1 ∧ p.1 < (m.nvars : Int) ∧ 0 ≤ p.2 ∧ p.2 < (m.nvars : Int)) :
+    ∃ r m', preimage trans target rn qvars fa m = (.ok r, m') ∧
+      DynPostG ext (PreimageDoc fa (q.map m.tbl.nameOf)
+        (namePairs m.tbl (intPairs (resolveRename m.tbl rn))) trans target) m r m' := by
+  have hpre := preimagePreL_of_levels m hD.order rn qvars q hq hov hnl hlv
+  obtain ⟨r, m', he, hp⟩ := preimage_literal_transparent ext hS m hD trans target ht hs fa _ _ hpre
+  refine ⟨r, m', ?_, hp⟩
+  rw [preimage_keys_eq_names m hD.order trans target rn qvars fa q hq hnl hlv,
+    ← preimage_names_eq m rfl hD.order trans target fa _ _ hpre.keys hpre.decl hpre.qdecl]
+  exact he
+
 end DD
